@@ -7,7 +7,7 @@ import json, os, subprocess, sys, tempfile, time
 
 ROOT = os.path.dirname(os.path.dirname(os.path.abspath(__file__)))
 EXTRA = {"C07-a": ["C04"], "C08-b": [], "C02-b": ["C20", "C06"], "C06-b": ["C03"], "C11-b": ["C03"], "C19-b": ["C10"], "C09-b": ["C18"],
-         "C12-c": ["C13"], "C12-d": ["C13"], "C15-d": ["C05"], "C19-c": ["C10"], "C19-d": ["C09"], "C18-d": ["C16", "C01"], "C16-d": ["C03"], "C11-c": ["C03"], "C02-d": ["C16", "C01"], "C03-e": ["C17"], "C03-f": ["C06"], "C01-e": ["C16"], "C01-f": ["C16", "C18"], "C06-e": ["C03"], "C06-f": ["C04", "C07"], "C07-f": ["C03", "C20"], "C19-e": ["C09", "C18"], "C19-f": ["C05"], "C12-e": ["C05"], "C18-f": ["C05"], "C11-e": ["C04"], "C20-e": ["C14"], "C03-g": ["C16"], "C10-h": ["C03"], "C04-g": ["C11"], "C01-h": ["C02"], "C06-g": ["C03"], "C06-h": ["C03"], "C12-h": ["C13"], "C19-h": ["C14"], "C20-h": ["C18"], "C17-h": ["C03"], "C11-g": ["C20"], "C18-g": ["C16"], "C19-g": ["C07"], "C02-i": ["C06"], "C06-i": ["C18"], "C11-j": ["C03"], "C19-i": ["C13"], "C19-j": ["C01"], "C02-j": ["C19"], "C14-j": ["C04"], "C18-i": ["C02"], "C20-i": ["C06", "C11"]}
+         "C12-c": ["C13"], "C12-d": ["C13"], "C15-d": ["C05"], "C19-c": ["C10"], "C19-d": ["C09"], "C18-d": ["C16", "C01"], "C16-d": ["C03"], "C11-c": ["C03"], "C02-d": ["C16", "C01"], "C03-e": ["C17"], "C03-f": ["C06"], "C01-e": ["C16"], "C01-f": ["C16", "C18"], "C06-e": ["C03"], "C06-f": ["C04", "C07"], "C07-f": ["C03", "C20"], "C19-e": ["C09", "C18"], "C19-f": ["C05"], "C12-e": ["C05"], "C18-f": ["C05"], "C11-e": ["C04"], "C20-e": ["C14"], "C03-g": ["C16"], "C10-h": ["C03"], "C04-g": ["C11"], "C01-h": ["C02"], "C06-g": ["C03"], "C06-h": ["C03"], "C12-h": ["C13"], "C19-h": ["C14"], "C20-h": ["C18"], "C17-h": ["C03"], "C11-g": ["C20"], "C18-g": ["C16"], "C19-g": ["C07"], "C02-i": ["C06"], "C06-i": ["C18"], "C11-j": ["C03"], "C19-i": ["C13"], "C19-j": ["C01"], "C02-j": ["C19"], "C14-j": ["C04"], "C18-i": ["C02"], "C20-i": ["C06", "C11"], "C02-k": ["C18"]}
 NOWRITE = "--no-write" in sys.argv
 sys.argv = [a for a in sys.argv if a != "--no-write"]
 names = sys.argv[1:] or sorted(d for d in os.listdir(os.path.join(ROOT, "seeded")) if os.path.isdir(os.path.join(ROOT, "seeded", d)))
